@@ -364,8 +364,8 @@ func (m *Multi) Subseq(start, end int) (*Multi, error) {
 	var ns []seq.Sequence
 
 	for _, r := range m.Seq {
-		rs := reflect.New(reflect.TypeOf(r)).Interface().(sequtils.Sliceable)
-		err := sequtils.Truncate(rs, r, start, end)
+		rs := r.Clone().(sequtils.Sliceable)
+		err := sequtils.Truncate(rs, rs, start, end)
 		if err != nil {
 			return nil, err
 		}
